@@ -462,6 +462,18 @@ end Freq
 def axisSpec (shape : List Nat) (a : Nat) : Nat × Nat × Nat :=
   (prodL (shape.take a), shape.getD a 1, prodL (shape.drop (a + 1)))
 
+/-- `scico.numpy.util.normalize_axes(axes, shape)` as documented: `None` = all axes, negative values count from
+    the last axis; `none` = `ValueError`: empty tuple, an axis outside `[−ndim, ndim)`, a repeated axis.
+    (The pinned code does not reject `a < −ndim`: known finding `axes-negative-out-of-range`.) -/
+def normAxes (nd : Nat) (axes : Option (List Int)) : Option (List Nat) :=
+  match axes with
+  | none => some (List.range nd)
+  | some ax =>
+      if ax.isEmpty then none
+      else if ax.all (fun a => decide (-(nd : Int) ≤ a ∧ a < nd)) then
+        (if (ax.map (pyIx nd)).Nodup then some (ax.map (pyIx nd)) else none)
+      else none
+
 /-! ## Circular convolution in the DFT domain: any spectrum, the centre-shift phases -/
 
 section CircSpec
